@@ -46,6 +46,46 @@ INFO = {
            "freeing allocator, >= 2 ParseSchema calls, an earlier call having built a container with keys/strings that survives"),
  "C20-a": ("C20", "skip.inc.h SkipString: the `escaped` flag is computed from the last block only: long escaped keys are classified plain and keep their raw spelling",
            "a key with an escape whose raw spelling is >= 32 bytes (16 for SSE) and whose last backslash is in a block before the one with the closing quote"),
+ "C01-b": ("C01", "unicode.h (avx2+sse) HasQuoteFirst loses its `&& !HasUnescaped()` guard and parseStringInplace reorders only its FIRST loop: the copy loop after the first escape accepts raw control bytes",
+           "a string with an escape, then a raw byte < 0x20 at least one vector width into the string, in the same window as the closing quote"),
+ "C02-b": ("C02", "generic_document.h allocateStringBuffer keeps the previous string buffer when `str_cap_ >= len` (padded capacity compared with unpadded length): reparse of a longer text overruns the buffer by up to 64 bytes",
+           "non-freeing pool allocator, one document parsed twice, second text 1..64 bytes longer than the first, something behind the buffer that notices (guard page / exact chunk)"),
+ "C03-b": ("C03", "avx2/base.h Xmemcpy<32>/<16>: bulk of >= 2 KiB handed to std::memcpy without advancing src/dst: the last count%4 members / count%8 elements of big containers stay uninitialised",
+           "AVX2 build, an array of >= 128 elements with count%8 != 0 or an object of >= 64 members with count%4 != 0"),
+ "C04-b": ("C04", "atof_native.h AtofEiselLemire64: exponent range check moved before the rounding step: a mantissa that carries out at exponent 0x7FE yields +-inf, stored instead of rejected",
+           "a value in [DBL_MAX + half ulp, 2^1024) spelled so that it reaches Eisel-Lemire untruncated (e.g. 1.7976931348623159e308)"),
+ "C05-b": ("C05", "skip.inc.h SkipString: `found` (escape seen) becomes per-block instead of sticky: long escaped ON-DEMAND keys are compared raw",
+           "an on-demand key of >= 32 (SSE 16) raw bytes whose last backslash is in an earlier block than the closing quote"),
+ "C06-b": ("C06", "ftoa.h F64toa: non-finite test rewritten as `(raw<<1) == (EXP_MASK<<1)`: only +-inf rejected, every NaN serialises as a finite-looking number",
+           "a real node holding any NaN"),
+ "C07-b": ("C07", "ftoa.h Pow10CeilSig table row -1 loses one hex digit of its low word (under-estimate): wrong / non-shortest digits",
+           "integer-valued doubles in [2^56, 2^59) whose rounding-interval end point is a multiple of 100 (~2% of those binades)"),
+ "C08-b": ("C08", "itoa.h Utoa_1_8 5~6 digit branch: `val/10000` replaced by a 25-bit reciprocal multiply that is one too large for 96 inputs",
+           "val in 9x9984..9x9999 (x=4..9) as the 1..8 digit group, e.g. 999999 or 10^14-1"),
+ "C09-b": ("C09", "quote_common.h DoEscape peeks the next source byte before testing the remaining length: reads src[len]",
+           "last byte needs escaping and is consumed by the full-vector loop (e.g. len 32 / 16) and src+len is unmapped"),
+ "C10-b": ("C10", "skip.inc.h SkipString reports kEscaped only when an escaped QUOTE was seen: keys with \\n, \\u.. are compared raw by GetOnDemand",
+           "path targets a key with a non-quote escape and >= VEC_LEN bytes follow the key's opening quote"),
+ "C11-b": ("C11", "skip.inc.h SkipString scalar tail rewritten with `cur != end`: after `if (prev_escaped) pos++` the cursor starts past the end and scans beyond the buffer",
+           "text cut inside a string, bytes after the opening quote a non-zero multiple of the vector width, last byte an unescaped backslash"),
+ "C12-b": ("C12", "dynamicnode.h addMemberImpl keys the lookup map on the CALLER's key buffer instead of the stored copy",
+           "CreateMap before AddMember(copyKey) with a key buffer that is later reused / freed, then any lookup or RemoveMember"),
+ "C13-b": ("C13", "dynamicnode.h eraseImpl shifts the tail with std::move (move assignment destroys the already-destroyed slots again): double free",
+           "freeing allocator, Erase of a range containing an owning element with at least one element after it"),
+ "C14-b": ("C14", "avx2/base.h cmp_lt_32 takes the sign from _mm256_cmpgt_epi8 (signed bytes)",
+           "AVX2 static build without sanitizer, < 32 byte in-page operands whose first differing bytes straddle 0x80"),
+ "C15-b": ("C15", "skip.inc.h SkipString calls GetEscaped<32> instead of GetEscaped<VEC_LEN>: the SSE build never carries an escape across blocks",
+           "SSE build only: a backslash in lane 15 of a 16-byte block with the escaped quote (or closing quote after \\\\) first in the next block, >= 16 more bytes after it"),
+ "C16-b": ("C16", "allocator.h AdaptiveChunkPolicy::ChunkSize early-return rewrite: when the next power of two is clamped to 64 KiB a request larger than that gets a chunk smaller than itself",
+           "adaptive policy with a current chunk size < 64 KiB and one request > 64 KiB that does not fit the current chunk"),
+ "C17-b": ("C17", "allocator.h SpinLock::lock with compare_exchange_weak whose `expected` is never reset: a waiter can 'acquire' a lock another thread has just taken",
+           "SONIC_LOCKED_ALLOCATOR build, >= 2 threads contending on one pool"),
+ "C18-b": ("C18", "dynamicnode.h removeMemberImpl decrements the length before the map maintenance: the tail key's old map entry is never erased and shadows the new one",
+           "object with a lookup map, RemoveMember of a member that is not the last, object then used as the right-hand side of =="),
+ "C19-b": ("C19", "schema_handler.h: matched-key counter saved only for in-place objects; the rebuilt-object EndObject resumes the wrong count: later declared keys of a nested in-place object are skipped",
+           "a non-root in-place object with a member rebuilt from a text object, followed by further declared members, parent having matched enough keys"),
+ "C20-b": ("C20", "lazy_update.h shares one Parser (and so one SkipScanner with its cached 64-byte non-space bitmap) across all lazy parses of an UpdateLazy call",
+           "pretty-printed inputs (>= 2 blanks before a token with >= 66 bytes remaining) and a later text / nested slice parsed in the same call"),
 }
 for sid, (prop, what, needs) in INFO.items():
     d = os.path.join(ROOT, "seeded", sid)
